@@ -65,8 +65,8 @@ check('C06', 'argument-provenance and typestate rules on allocator call sites (w
       'DESIGN.md section 4, C06')
 
 check('C13', 'typestate rules over every swap2 instantiation (ordered flavour pairs): throw-before-mutation ordering, size-word write discipline, noexcept soundness on the call graph, capacity-check dominance',
-      'Decides, for all ordered pairs of the flavour matrix, that a failing exchange throws before either operand is modified (and really throws rather than terminating), that sizes are exchanged through the encoding discipline, that the deep swap is capacity-checked and the buffer exchange touches no element.',
-      'Also: EACH-OTHER, STALE-READ, XALLOC, ENC-SIB, strict swap_sizetype range test (THROW-TYPE), SWAP-WHO (swap_impl, which assumes equal inline capacity N, is only called with operands whose static type carries N). Partial: exact exchange of the element sequences is a value statement and is not decided.',
+      'Decides, for all ordered pairs of the flavour matrix, that a failing exchange throws before either operand is modified (and really throws rather than terminating), that sizes are exchanged through the encoding discipline, that the deep swap is capacity-checked and the buffer exchange touches no element; for pairs of SmallVectors the exchange of the element sequences itself is decided on normal paths (SWAP2-LAYOUT), for every pair swap_deep is.',
+      'Also: SWAP2-LAYOUT (swap2_impl between two SmallVectors interpreted with two objects for every feasible pair of states after the capacity adjustment: each ends with the size and elements of the other in order, a valid encoding, one owner per block) and the helper contract of swap_deep (SEG-LAYOUT); EACH-OTHER, STALE-READ, XALLOC, ENC-SIB, strict swap_sizetype range test (THROW-TYPE), SWAP-WHO (swap_impl, which assumes equal inline capacity N, is only called with operands whose static type carries N). Partial: for the other flavour pairs the exchange of the element sequences is decided through swap_deep only; element values are not decided.',
       'DESIGN.md section 4, C13')
 
 check('C03', 'who-may-construct rule on comparator-typed expressions, post-dominance of sort/merge/unique after bulk writes, control dependence of the node reset, comparator-call counting, type-level const-view witnesses',
